@@ -147,7 +147,8 @@ pub fn run_case<F: Flavour>(prop: &str, c: &SCase, st: &mut Stats, counting: boo
 pub fn run_case_on<F: Flavour>(prop: &str, nodes: &[F::Node], c: &SCase, st: &mut Stats, counting: bool) -> bool {
     let out = exec::<F>(nodes, c.root, &c.cell, &c.meth, budget_for(&c.g));
     // (C08 on very large graphs: orderings are compared with the same ordering on the reversed graph only)
-    let fails = if c.g.n > 30_000 && matches!(&c.cell, Cell::Order(_)) { vec![] } else { judge(F::DIRECTED, &c.g, c.root, &c.cell, &c.meth, &out) };
+    // (C10 keeps judging the preorders there: the discovery-order decider is linear)
+    let fails = if c.g.n > 30_000 && matches!(&c.cell, Cell::Order(_)) && !(prop == "C10" && matches!(&c.cell, Cell::Order(o) if o.ord == Ordk::Pre)) { vec![] } else { judge(F::DIRECTED, &c.g, c.root, &c.cell, &c.meth, &out) };
     if counting {
         st.eval();
         st.class(&format!("cell.{}", c.cell.label(&c.meth)));
@@ -931,6 +932,20 @@ pub fn run(prop: &'static str, ctx: &mut Ctx) {
         bigs.push((GCase { n, prio: (0..n).map(|i| ((i * 7) % 5) as i32).collect(), edges: e }, 0, (n - 1) as Key));
     }
     ctx.stats.extra.insert("deep_chain_sizes".into(), json!(deep_sizes));
+    // C10: a chain deeper than 2^17 with branching at its far end (x -> a, x -> b, a -> c, b -> c): the discovery order
+    // below a very deep recursion must still be depth-first (preorder is decided in linear time; see the skip below)
+    if prop == "C10" {
+        for &n in &tier.pick(vec![66_000usize, 140_000], vec![66_000usize, 140_000]) {
+            let m = n - 3;
+            let mut e: Vec<Tri> = (0..m - 1).map(|i| (i as Key, (i + 1) as Key, 7 + (i % 3) as EV)).collect();
+            let (x, a, b, c) = ((m - 1) as Key, m as Key, (m + 1) as Key, (m + 2) as Key);
+            e.push((x, a, 1));
+            e.push((x, b, 2));
+            e.push((a, c, 3));
+            e.push((b, c, 4));
+            bigs.push((GCase { n, prio: (0..n).map(|i| ((i * 7) % 5) as i32).collect(), edges: e }, 0, c));
+        }
+    }
     // one wide hub (in- and out-degree above 4096): 0 -> i and i -> 0 for every i, plus a chain among the first spokes
     if prop != "C06" {
         for &n in &tier.pick(if prop == "C08" { vec![8400usize, 70_000] } else { vec![8400usize] }, if prop == "C08" { vec![8400usize, 70_000, 140_000] } else { vec![8400usize, 70_000] }) {
@@ -965,7 +980,8 @@ pub fn run(prop: &'static str, ctx: &mut Ctx) {
                             continue;
                         }
                         // the exact ordering deciders are quadratic: beyond 30 000 nodes the orderings are exercised through scc() (C11)
-                        if g.n > 30_000 && matches!(&cell, Cell::Order(_)) && prop != "C08" {
+                        // (the preorder decider is linear, so C10 keeps the preorders)
+                        if g.n > 30_000 && matches!(&cell, Cell::Order(_)) && prop != "C08" && !(prop == "C10" && matches!(&cell, Cell::Order(o) if o.ord == Ordk::Pre)) {
                             continue;
                         }
                         let (root, target) = if cell.transposed() { (*t, *r) } else { (*r, *t) };
